@@ -195,7 +195,7 @@ def readRings (o : Order) (z m : Bool) : Nat → List UInt8 → Except Err (List
 /-- result of reading one geometry: the tree, its SRID, the stream's byte order afterwards, the rest -/
 abbrev GRes := Except Err ((G × Int) × Order × List UInt8)
 
-/-- `for (i < n) geoms[i] = readChild<T>()` for a child reader `f` (byte order threaded through) -/
+/-- `for (i < n) geoms.push_back(readChild<T>())` for a child reader `f` (byte order threaded through) -/
 def readN (f : Order → List UInt8 → Except Err (G × Order × List UInt8)) :
     Nat → Order → List UInt8 → Except Err (List G × Order × List UInt8)
   | 0, o, bs => .ok ([], o, bs)
